@@ -103,6 +103,14 @@ CLAIMED['C17'] = dict(
     technique=PYVC + ' on Configuration._reload/reload (identity of the neighbors object, exceptional exits); bounded reload pairs on the real Reactor with mechanically extracted Peer._main statements',
 )
 
+CLAIMED['C11'] = dict(
+    category='exploration',
+    text='BOUNDED ONLY (no deductive obligations yet). Real Peer, real Protocol (new_update_generator, new_eors, write, send), real RIB; only the transport is a stub recording every message. The session-up statements of Peer._main are extracted from its source at run time and executed unmodified; the two send steps of its loop are the real coroutines Peer._send_route_updates / _send_eor_messages; a loss is the real Peer._reset(). API histories of length <= 2 (3 thorough) over announce / attribute change / withdraw of API and configured routes x session loss after every number of sent messages x operations issued while down; after the next establishment the peer must hold the INTENDED table (an independent fold of the operations: configured routes plus API announces not since withdrawn), ExaBGP must report the same table, and exactly one End-of-RIB per negotiated family must follow the table transfer.',
+    note='Exploration level, not proof: the crash-point quantifier is enumerated, not eliminated by an invariant argument (the plan of DESIGN §6 C11 needs the RIB representation invariant under contract first). Three in-memory harness canaries (nothing re-advertised, no End-of-RIB, withdrawn-while-down re-advertised consistently with the report) must be reported on every run, otherwise the check exits 3. Loss during establishment (before the first UPDATE) is the cut 0 case only.',
+    ref='DESIGN.md §6 C11, §11.9',
+    technique='bounded stand-in only: real send coroutines against a recording transport, session loss at every cut, independent intended-table oracle (contract-based proof not built yet)',
+)
+
 NOT_YET = 'check not built yet in this session (planned in DESIGN.md §6); not claimed until its obligations are discharged'
 NA = {}
 
